@@ -287,10 +287,18 @@ def r7_optimised(ctx: Ctx) -> None:
                 break
             if isinstance(st, ast.Assign) and len(st.targets) == 1 and isinstance(st.targets[0], ast.Name) and st.targets[0].id == nm:
                 val = st.value.value if isinstance(st.value, ast.Constant) and isinstance(st.value.value, int) else None
+            elif isinstance(st, ast.Assign) and len(st.targets) == 1 and isinstance(st.targets[0], ast.Tuple) and isinstance(st.value, ast.Tuple) \
+                    and len(st.targets[0].elts) == len(st.value.elts):
+                for t_, v_ in zip(st.targets[0].elts, st.value.elts):          # a, n = x, 0
+                    if isinstance(t_, ast.Name) and t_.id == nm:
+                        val = v_.value if isinstance(v_, ast.Constant) and isinstance(v_.value, int) else None
+            elif isinstance(st, ast.AnnAssign) and isinstance(st.target, ast.Name) and st.target.id == nm and st.value is not None:
+                val = st.value.value if isinstance(st.value, ast.Constant) and isinstance(st.value.value, int) else None
             elif isinstance(st, ast.AugAssign) and isinstance(st.target, ast.Name) and st.target.id == nm:
                 val = val + st.value.value if val is not None and isinstance(st.op, ast.Add) and isinstance(st.value, ast.Constant) and isinstance(st.value.value, int) else None
         if len(incs) == 1 and val is not None:
             counters.append((nm, incs[0], val))
+    ctx.require(len(counters) >= 1, "glbfloor: the iteration counter (set to a constant before the loop, advanced by one in it) was not found")
     nm, inc, first = counters[0]
     cnt = cn.expr(ast.Name(id=nm, ctx=ast.Load()))
 
